@@ -117,9 +117,28 @@ def runLine (toks : List String) : String :=
     | _, _, _ => "bad-op"
   | _ => "bad-op"
 
+/-- `stress <lastrefs|churn|pop> <threads> <rounds>`: the harness runs REAL, UNSCHEDULED threads from a spin barrier.
+This op is a **provocation, not a model of the schedule**: nothing of the interleaving machine is executed here, the
+engine only echoes the constant a correct library must produce (exactly one release per shared object in `lastrefs`,
+`3·threads·rounds` releases in `churn`, `2·threads·rounds` in `pop`).  What it supports is the *detection* of
+violations of `released_once` / `never_early` whose cause lies below the hook granularity (a decrement and its
+zero-test split inside `AtomicDecrement`), which the cooperative scheduler cannot place and which the theorems —
+stated over atomic counter steps — assume away.  It is testing, and proves nothing. -/
+def stressLine (kind ks rs : String) : String :=
+  match nat? ks, nat? rs with
+  | some k, some rounds =>
+    if k < 1 ∨ k > 8 ∨ rounds < 1 ∨ rounds > 10000000 then "bad-op"
+    else if kind = "lastrefs" then s!"ok rounds={rounds} released={rounds}"
+    else if kind = "churn" then s!"ok rounds={rounds} released={3 * k * rounds}"
+    else if kind = "pop" then s!"ok rounds={rounds} released={2 * k * rounds}"
+    else "bad-op"
+  | _, _ => "bad-op"
+
 def step (_ : Unit) (toks : List String) : Unit × String :=
   match toks with
   | ["case", n] => ((), "case " ++ n)
+  | ["stress", kind, ks, rs] => ((), stressLine kind ks rs)
+  | "stress" :: _ => ((), "bad-op")
   | _ => ((), runLine toks)
 
 def engine : Engine := { σ := Unit, init := (), step := step }
